@@ -35,12 +35,20 @@ class UFLoss:
     on_gradient = True
     on_hessian = False
 
-    def __init__(self, n):
+    def __init__(self, n, max_points=None):
         self.n = n
         self.num_var = n
         self.f, self.g, _ = _conc_maps(n)
+        # bound on the line search that does not depend on how the algorithm is organised internally: the number of DISTINCT points
+        # at which the loss value is requested during one symbolic run (start point + trial points); beyond it the path is outside
+        self.max_points = max_points
+        self.points = set()
 
     def value(self, var, validate=False):
+        if self.max_points is not None and core.CTX.active:
+            self.points.add(tuple(str(t) for t in flat(var)))
+            if len(self.points) > self.max_points:
+                raise core.Outside("line search deeper than the explored bound (distinct loss evaluations)")
         return uf_scalar("f", var, self.f)
 
     def gradient(self, var, validate=False):
@@ -66,3 +74,16 @@ def dot(a, b):
 
 def sqnorm(a):
     return dot(a, a)
+
+
+def line_search_limit(iters, maxh):
+    """distinct loss-evaluation points of `iters` backtracking iterations with at most `maxh` halvings each: the start point plus
+    maxh + 1 trial points per iteration (the accepted trial point is the next iteration's start point)"""
+    return 1 + iters * (maxh + 1)
+
+
+def outside_if_deeper(alphas, maxh):
+    """a recorded step size below 2^-maxh means the line search went deeper than the explored bound: the path is outside the claim"""
+    for al in alphas:
+        if float(al) < 2.0 ** (-maxh):
+            raise core.Outside("alpha halving deeper than the explored bound")
